@@ -541,7 +541,7 @@ impl Space for ToStr {
     }
 }
 
-/// thorough: u32 functions over all 2^32 values, d_tag over the whole i32 range; a case = 2^16 values.
+/// u32 functions over all 2^32 values, d_tag over the whole i32 range; a case = 2^16 values.
 struct ToStrFull {
     fns: Vec<StrFn>,
 }
@@ -595,7 +595,10 @@ impl Space for ToStrFull {
 pub fn build(tier: Tier) -> CheckDef {
     let mut spaces: Vec<Box<dyn Space>> =
         vec![Box::new(Consts { r: load_ref() }), Box::new(Layouts), Box::new(ToStr::new())];
-    if tier == Tier::Thorough {
+    {
+        // both tiers: the whole 32-bit domain costs about 12 s on 16 cores, and a name for a single
+        // value nobody exports cannot be found any other way
+        let _ = tier;
         let fns: Vec<StrFn> = str_fns().into_iter().filter(|f| matches!(f, StrFn::U32(..) | StrFn::I64(..))).collect();
         spaces.push(Box::new(ToStrFull { fns }));
     }
@@ -611,6 +614,6 @@ pub fn build(tier: Tier) -> CheckDef {
         abort_is_violation: false,
         hang_is_violation: false,
         exhaustive: true,
-        bounds: json!({"u32_i64_domains": tier.pick("constants+-1 and boundary alphabet", "all 2^32 values / whole i32 range")}),
+        bounds: json!({"u32_i64_domains": "all 2^32 values / whole i32 range (to_str); constants+-1 and boundary alphabet (to_string)"}),
     }
 }
